@@ -1,6 +1,47 @@
 import PgFdr.Json
+import PgFdr.Model.C04
 namespace PgFdr.Driver
 open Lean PgFdr
+
+/-- `[[nodes…], s, t, [cut…]]` -/
+def jcut (j : Json) : R ((List String × String × String) × List String) := do
+  match j with
+  | .arr #[ns, s, t, c] => pure ((C04.sortDedup (← jstrs ns), ← jstr s, ← jstr t), ← jstrs c)
+  | _ => .error s!"expected [nodes, s, t, cut], got {j.compress}"
+
+/-- `{"op":"rescue","pil":[[peptide,[n,d],[proteins…]]…],"cutoff":[n,d],"N":[[…]…],"old":[[…]…],
+     "infos":[[[[n,d],peptide,[proteins…]]…]…],"cuts":[[[nodes…],s,t,[cut…]]…]}`
+    → filtered peptides, identified group positions, graph, leaves, rescued groups, merged groups,
+      placeholders with their peptide infos, groups of the second competition, reportable groups;
+      or `{"err": …}` -/
+def handleRescue (j : Json) : R Json := do
+  let pil ← jlist jpepinfo (← jget j "pil")
+  let cutoff ← jrat (← jget j "cutoff")
+  let n ← jgroups (← jget j "N")
+  let old ← jgroups (← jget j "old")
+  let infos ← jlist (jlist jevidence) (← jget j "infos")
+  let cuts ← jlist jcut (← jget j "cuts")
+  let filtered := C04.filterByCutoff pil cutoff
+  if !C04.covers n filtered then pure (ofErr "subset_grouping_does_not_cover") else
+  match C04.rescueGroupsN n (old.zip infos) pil cutoff cuts with
+  | .error e => pure (ofErr e)
+  | .ok out =>
+    let lvs := match C04.leaves n filtered cuts with
+      | .ok l => l
+      | .error _ => []
+    pure (obj [
+      ("filtered", ofList ofPepInfo out.filtered),
+      ("identified", ofList ofNat (C04.identifiedIdxs n filtered)),
+      ("prot_nodes", ofStrs (C04.protNodes n filtered)),
+      ("edges", ofList (fun e => ofStrs [e.1, e.2]) (C04.edges n filtered)),
+      ("leaves", ofGroups lvs),
+      ("rescued", ofGroups out.rescued),
+      ("groups", ofGroups out.groups),
+      ("obsolete", ofGroups out.obsolete),
+      ("obsolete_infos", ofList (ofList ofEvidence) out.obsoleteInfos),
+      ("second_pass", ofGroups (C04.secondPassGroups out)),
+      ("reported", ofGroups (C04.reported (C04.secondPassGroups out)))])
+
 /-- protocol handlers of property C04: (op name, handler) -/
-def handlersC04 : List (String × (Json → R Json)) := []
+def handlersC04 : List (String × (Json → R Json)) := [("rescue", handleRescue)]
 end PgFdr.Driver
